@@ -62,16 +62,28 @@ void harness::run_case(const eng::Raw& raw, eng::Ctx& ctx)
 		a = lib::build(c.A, c.order, c.num);
 	}
 
+	// one map object re-used across calls (third variant below): it arrives NON-EMPTY, filled by trimming another automaton
+	VATA::AutBase::StateToStateMap reused;
+	{
+		ref::TA other = V;
+		other.finals.clear();
+		for (int q : V.states()) if (gen::mix(c.header[5], static_cast<uint64_t>(q) + 3) % 2) other.finals.insert(q);
+		eng::LibSection ls(ctx, "fill-reused-map");
+		VATA::ExplicitTreeAut o = lib::build(other);
+		(void)o.RemoveUnreachableStates(&reused);
+		(void)o.RemoveUselessStates(&reused);
+	}
 	// --- RemoveUnreachableStates
-	for (int withMap = 0; withMap < 2; ++withMap) {
-		VATA::AutBase::StateToStateMap m;
+	for (int withMap = 0; withMap < 3; ++withMap) {
+		VATA::AutBase::StateToStateMap fresh;
+		VATA::AutBase::StateToStateMap& m = (withMap == 2) ? reused : fresh;
 		VATA::ExplicitTreeAut r;
 		{
-			eng::LibSection ls(ctx, withMap ? "RemoveUnreachableStates(map)" : "RemoveUnreachableStates");
+			eng::LibSection ls(ctx, withMap == 2 ? "RemoveUnreachableStates(reused-map)" : withMap ? "RemoveUnreachableStates(map)" : "RemoveUnreachableStates");
 			r = a.RemoveUnreachableStates(withMap ? &m : nullptr);
 		}
 		ref::TA R = lib::read(r);
-		const std::string sig = "unreach";
+		const std::string sig = (withMap == 2) ? "unreach-reused-map" : "unreach";
 		tc::expect_equiv(ctx, sig, R, V, "RemoveUnreachableStates");
 		const std::set<int> rr = R.reachable();
 		for (int q : R.states()) {
@@ -84,15 +96,16 @@ void harness::run_case(const eng::Raw& raw, eng::Ctx& ctx)
 	}
 
 	// --- RemoveUselessStates
-	for (int withMap = 0; withMap < 2; ++withMap) {
-		VATA::AutBase::StateToStateMap m;
+	for (int withMap = 0; withMap < 3; ++withMap) {
+		VATA::AutBase::StateToStateMap fresh;
+		VATA::AutBase::StateToStateMap& m = (withMap == 2) ? reused : fresh;
 		VATA::ExplicitTreeAut u;
 		{
-			eng::LibSection ls(ctx, withMap ? "RemoveUselessStates(map)" : "RemoveUselessStates");
+			eng::LibSection ls(ctx, withMap == 2 ? "RemoveUselessStates(reused-map)" : withMap ? "RemoveUselessStates(map)" : "RemoveUselessStates");
 			u = a.RemoveUselessStates(withMap ? &m : nullptr);
 		}
 		ref::TA U = lib::read(u);
-		const std::string sig = "useless";
+		const std::string sig = (withMap == 2) ? "useless-reused-map" : "useless";
 		tc::expect_equiv(ctx, sig, U, V, "RemoveUselessStates");
 		// every remaining state and rule takes part in some accepting run
 		if (U.trim() != U) {
